@@ -12,6 +12,7 @@ var loadPkgs = []string{
 	galaxy + "pkg/ipam/floatingip",
 	galaxy + "pkg/ipam/schedulerplugin",
 	galaxy + "pkg/ipam/crd",
+	galaxy + "pkg/ipam/cloudprovider",
 	galaxy + "pkg/ipam/api", // REST controllers: entry points of their own, sharing listers and the ipam with the plugin
 	galaxy + "pkg/galaxy",
 	galaxy + "pkg/api/cniutil",
@@ -37,6 +38,8 @@ const (
 	lkCrdC   = "crdCache.lock"
 	lkPort   = "PortMappingHandler.Mutex"
 	lkPolicy = "PolicyManager.Mutex"
+	// a sync.Once seen as a lock: written only inside Do's function (mode W), read only after a Do call (mode R)
+	lkGrpcInit = "grpcCloudProvider.init"
 )
 
 var locations = []locCfg{
@@ -57,6 +60,8 @@ var locations = []locCfg{
 	// pkg/ipam/schedulerplugin
 	{"FloatingIPPlugin.nodeSubnet", lkNode}, {"FloatingIPPlugin.nodeSubnet[]", lkNode},
 	{"crdKey.keyToGVR", lkCrdKey}, {"crdKey.keyToGVR[]", lkCrdKey},
+	// pkg/ipam/cloudprovider: the gRPC client is dialled once, by whichever request comes first
+	{"grpcCloudProvider.client", lkGrpcInit},
 	// pkg/ipam/crd
 	{"crdCache.startedInformers", lkCrdC}, {"crdCache.startedInformers[]", lkCrdC},
 	// pkg/galaxy: the network configuration table is filled by Init and read-only afterwards; the
@@ -74,7 +79,7 @@ var structPkg = map[string]string{
 	"crdIpam": galaxy + "pkg/ipam/floatingip", "FloatingIP": galaxy + "pkg/ipam/floatingip",
 	"FloatingIPPool": galaxy + "pkg/ipam/floatingip", "SparseSubnet": galaxy + "pkg/utils/nets",
 	"FloatingIPPlugin": galaxy + "pkg/ipam/schedulerplugin", "crdKey": galaxy + "pkg/ipam/schedulerplugin",
-	"crdCache": galaxy + "pkg/ipam/crd", "Galaxy": galaxy + "pkg/galaxy",
+	"crdCache": galaxy + "pkg/ipam/crd", "Galaxy": galaxy + "pkg/galaxy", "grpcCloudProvider": galaxy + "pkg/ipam/cloudprovider",
 	"PortMappingHandler": galaxy + "pkg/network/portmapping", "PolicyManager": galaxy + "pkg/policy",
 }
 
@@ -99,6 +104,7 @@ var entries = []entryCfg{
 		extra: []string{"resyncPod", "syncPodIPsIntoDB", "updateConfigMap", "unbind", "loop", "getNodeSubnet", "queryNodeSubnet"}},
 	{pkg: galaxy + "pkg/ipam/schedulerplugin", typ: "crdKey", exported: true},
 	{pkg: galaxy + "pkg/ipam/crd", typ: "crdCache", exported: true},
+	{pkg: galaxy + "pkg/ipam/cloudprovider", typ: "grpcCloudProvider", exported: true},
 	{pkg: galaxy + "pkg/ipam/api", typ: "PoolController", exported: true},
 	{pkg: galaxy + "pkg/ipam/api", typ: "Controller", exported: true},
 	{pkg: galaxy + "pkg/galaxy", typ: "Galaxy", exported: false, extra: []string{"cni", "requestFunc", "cleanIPtables"},
